@@ -255,6 +255,8 @@ Definition orig_reader_name (q : query) : option string :=
   | _ => None
   end.
 
+Definition not_err (t : term) : bool := match t with TL (TZ _ :: _) => true | _ => false end.
+
 Definition classify (q : query) (sqlo kvo : term) (s : spec) (k korig : kvs) : term :=
   let ms := obs_spec s q in
   if negb (term_eqb sqlo ms) then v_viol ms
@@ -267,7 +269,12 @@ Definition classify (q : query) (sqlo kvo : term) (s : spec) (k korig : kvs) : t
        | QPfx p maxn pre cnt =>
            if term_eqb kvo (o_pfx (kv_lookup_keys_by_prefix_flags k p maxn pre cnt))
               || term_eqb kvo (o_pfx (kv_lookup_keys_by_prefix_flags korig p maxn pre cnt))
-           then v_known "kv_prefix_result_flags" ms else v_viol ms
+           then v_known "kv_prefix_result_flags" ms
+           else if strange_prefix p && not_err kvo then v_known "kv_prefix_scan_raw_range" ms else v_viol ms
+       | QPfxc p _ _ _ _ _ =>
+           (* "" / all-0xff prefix: the code as found answers with rows of every table (raw values,
+              not reproducible by the model) where SQLite rejects the prefix *)
+           if strange_prefix p && not_err kvo then v_known "kv_prefix_scan_raw_range" ms else v_viol ms
        | _ => v_viol ms
        end.
 
